@@ -142,6 +142,13 @@ func genValue(r *emit.Rng) float64 {
 	case 5:
 		return math.Ldexp(1.5, r.Intn(30)-10)
 	case 6:
+		if r.Chance(1, 2) { // subnormals (they only reach a regular bucket when the zero threshold is zero)
+			v := math.Float64frombits(uint64(1+r.Intn(1<<20)) << uint(r.Intn(32)))
+			if r.Bool() {
+				v = -v
+			}
+			return v
+		}
 		return 1e-50 // below the default zero threshold
 	case 7: // exactly on a native bucket boundary that is not a power of two (schemas 1..8), or next to it
 		sc := 1 + r.Intn(8)
